@@ -16,9 +16,9 @@ Theorem scenario_event_stream_shape :
   forall cfg st id all_steps oe eff own st' res fld ev,
     run_scenario cfg st id all_steps oe eff own = (st', res, fld, ev) ->
     exists n, n <= length all_steps /\ length (sr_steps res) = length all_steps /\
-      fmt_of ev = announcement (c_expr cfg eff || c_show_skipped cfg) id all_steps
+      fmt_of ev = announcement (sel cfg eff || c_show_skipped cfg) id all_steps
                   ++ processed n all_steps (sr_steps res) /\
-      (c_expr cfg eff = false -> n = 0).
+      (sel cfg eff = false -> n = 0).
 Proof. exact scenario_fmt_shape. Qed.
 Print Assumptions scenario_event_stream_shape.
 
@@ -71,7 +71,7 @@ Print Assumptions json_element_mirrors_processed_steps.
 (* non-vacuity: a feature-level scenario followed by a rule with background (the shape that used
    to put the status on the background element) *)
 Example json_status_goes_to_the_scenario_element :
-  let cfg := mkCfgData false false true TTrue [] [] [] 99 false in
+  let cfg := mkCfgData false false true TTrue [] [] [] 99 false None in
   let f := mkFeature 1 [] (Some [mkStep KPass 1])
              [FItem (SScen (mkScen 2 [] [mkStep KFail 2; mkStep KPass 3]));
               FRule (mkRule 3 [] (Some [mkStep KPass 4]) [SScen (mkScen 5 [] [mkStep KPass 6])])] in
